@@ -190,7 +190,10 @@ def csv_event(name, las, mn, un, loc, kw):
     if exp_m is not None:
         if loc in ("[]", "()") and exp_u is not None:
             kinds.append("m" + loc)
-            ok = ok and hi < len(head) and head[hi] == ["%s %s%s%s" % (m, loc[0], u, loc[1]) for m, u in zip(exp_m, exp_u)]
+            import re as _re
+            ok = ok and hi < len(head) and len(head[hi]) == min(len(exp_m), len(exp_u)) and all(
+                _re.fullmatch(_re.escape(str(m)) + r"\s*" + _re.escape(loc[0]) + _re.escape(str(u)) + _re.escape(loc[1]), cell)
+                for cell, m, u in zip(head[hi], exp_m, exp_u))
         else:
             kinds.append("m")
             ok = ok and hi < len(head) and head[hi] == [str(m) for m in exp_m]
@@ -227,8 +230,19 @@ def xlsx_event(name, las, path):
             os.remove(path)
     hs = wb["Header"]
     rows = list(hs.iter_rows(min_row=2, values_only=True))
-    ev["header_rows"] = [[r[0], "" if r[1] is None else str(r[1])] for r in rows]
     items = [it for k in ("Version", "Well", "Parameter", "Curves") for it in list.__iter__(las.sections[k])]
+    labels = [k for k in ("Version", "Well", "Parameter", "Curves") for it in list.__iter__(las.sections[k])]
+    # the sheet must list every item in order; the label spelling and whether the session or the original mnemonic is shown
+    # are not specified: rows are normalised to <<"~Section", session mnemonic>> when they are acceptable
+    norm = []
+    for i, r in enumerate(rows):
+        lab = str(r[0] or "").lstrip("~")
+        mn = "" if r[1] is None else str(r[1])
+        if i < len(items) and lab[:1].upper() == labels[i][:1] and mn in (items[i].mnemonic, items[i].original_mnemonic):
+            norm.append(["~" + labels[i], items[i].mnemonic])
+        else:
+            norm.append([str(r[0]), mn])
+    ev["header_rows"] = norm
     ok = len(items) == len(rows)
     if ok:
         for it, r in zip(items, rows):
